@@ -24,7 +24,7 @@
    data arrives (a tail that already is a complete JSON text is processed at
    once, as Protocol.add_buffer does).  Environment steps are taken only when
    the system is settled (pend = <<>>), as the harness does; the system
-   actions Execute / Reject / Deliver / HDispatch / HChan / Probe work the
+   actions Execute / Reject / Deliver / HDispatch / HValue / HChan / Probe work the
    queue of packets a read made complete (garbage pieces are dropped).
 
    Dev is the set of deviations of the pinned implementation from the
@@ -46,6 +46,7 @@ CONSTANTS Sizes,          \* subset of {"s", "b"}: call payload sizes
           FwConfigs,      \* subset of {"--", "S-", "-R", "SR"}: which firewalls are installed
           Values,         \* subset of {1, 2}: result value ids (1 small, 2 larger than 4 KiB)
           ErrReplies,     \* BOOLEAN: a callee handler may raise
+          NoResult,       \* subset of BOOLEAN: TRUE = sends nobody waits for (node_without_result)
           HostileClasses, \* subset of {"trunc","types","missing","oversize","delim","chanlist","vforge"}
           MetaKeys,       \* metadata keys of the hostile grammar
           MaxSends, MaxHostile, MaxCuts, MaxSteps,
@@ -143,24 +144,24 @@ LastKind == hist[Len(hist)][1]
 CanStep == Len(hist) < MaxSteps /\ LastKind # "Q" /\ pend = <<>>
 
 (* ---- environment ------------------------------------------------------- *)
-Send(size, pay, fwk) ==
+Send(size, pay, fwk, nr) ==
   /\ CanStep /\ Len(evs) < MaxSends
   /\ LET sid == Len(evs) + 1
          sok == SendOK(fwk)
          rok == RecvOK(fwk)
-         ev  == [fwk |-> fwk, sok |-> sok, rok |-> rok, ex |-> 0, running |-> FALSE, waiting |-> sok]
+         ev  == [fwk |-> fwk, sok |-> sok, rok |-> rok, ex |-> 0, running |-> FALSE, waiting |-> sok /\ ~nr]
          pk  == IF pay = "tilde" /\ "tilde" \in Dev THEN SplitJunk(size, FALSE)
                 ELSE IF pay = "valkey" /\ "valuekey" \in Dev THEN <<Sized(size, "junk", 0, 0, FALSE, "", FALSE)>>
                 ELSE <<Sized(size, "call", sid, 0, FALSE, "", FALSE)>>
-         sl  == Line("send", sid, sid, IF sok THEN 1 ELSE 0, IF rok THEN 1 ELSE 0, "")
+         sl  == Line("send", sid, sid, IF sok THEN 1 ELSE 0, IF rok THEN 1 ELSE 0, IF nr THEN "nr" ELSE "")
      IN /\ evs' = Append(evs, ev)
         /\ IF sok
            THEN /\ chan' = [chan EXCEPT ![0] = @ \o pk]
                 /\ Emit(<<sl, Line("wr", 0, 0, 0, 0, "")>>)
            ELSE /\ UNCHANGED chan
-                \* the send firewall refuses: nothing is written, the waiting handler resumes with no value
-                /\ Emit(<<sl, Line("deliver", sid, 0, 0, 0, "")>>)
-  /\ hist' = Append(hist, H("S", size, pay, fwk, 0, 0))
+                \* the send firewall refuses: nothing is written, the waiting handler (if any) resumes with no value
+                /\ Emit(IF nr THEN <<sl>> ELSE <<sl, Line("deliver", sid, 0, 0, 0, "")>>)
+  /\ hist' = Append(hist, H("S", size, pay, fwk, IF nr THEN 1 ELSE 0, 0))
   /\ UNCHANGED <<fw, rpos, bstart, pend, ncuts, nhost, alive>>
 
 Read(d, k) ==
@@ -206,6 +207,7 @@ HostilePkts(cls, key) ==
     [] cls = "delim"    -> SplitJunk("s", TRUE)
     [] cls = "chanlist" -> <<Small("hchan", 0, 0, FALSE, "", TRUE)>>
     [] cls = "vforge"   -> <<Small("reply", FirstSent, -1, FALSE, "", TRUE)>>
+    [] cls = "vmeta"    -> <<Small("hval", FirstSent, -1, FALSE, key, TRUE)>>
     [] cls = "meta"     -> IF key = "value" /\ "valuekey" \in Dev
                            THEN <<Small("junk", 0, 0, FALSE, "", TRUE)>>   \* contains the text "value": - taken for a value packet
                            ELSE <<Small("hcall", 0, 0, FALSE, key, TRUE)>>
@@ -215,7 +217,8 @@ Hostile(cls, key) ==
   /\ CanStep /\ nhost < MaxHostile
   /\ nhost' = nhost + 1
   /\ chan' = [chan EXCEPT ![1] = @ \o HostilePkts(cls, key)]
-  /\ Emit(<<Line("hostile", 1, IF cls = "meta" THEN 1 ELSE 0, 0, 0, IF cls = "meta" THEN key ELSE cls)>>)
+  /\ Emit(<<Line("hostile", 1, IF cls = "meta" THEN 1 ELSE IF cls = "vmeta" THEN 2 ELSE 0, 0, 0,
+                  IF cls \in {"meta", "vmeta"} THEN key ELSE cls)>>)
   /\ hist' = Append(hist, H("H", cls, key, "", 0, 0))
   /\ UNCHANGED <<fw, rpos, bstart, evs, pend, ncuts, alive>>
 
@@ -277,6 +280,22 @@ HDispatch ==
   /\ pend' = Tail(pend)
   /\ UNCHANGED <<fw, rpos, bstart, evs, ncuts, nhost, hist>>
 
+(* a hostile *value* packet answering the first call, with metadata: the
+   sender's event for that call must keep its protected attributes; ordinary
+   metadata arrives, and the waiting handler resumes with the forged value   *)
+HValue ==
+  /\ IsPkt("hval")
+  /\ LET id   == Item.pk.id
+         wt   == id \in 1..Len(evs) /\ evs[id].waiting
+         ks   == KeysOf(Item.pk.key)
+         at   == [j \in 1..Len(ks) |-> Line("hattr", 0, IF wt /\ ks[j] \notin Protected THEN 1 ELSE 0, 2, 0, ks[j])]
+     IN IF wt
+        THEN /\ evs' = [evs EXCEPT ![id].waiting = FALSE]
+             /\ Emit(at \o <<Line("deliver", id, -1, 0, 0, "")>>)
+        ELSE /\ Emit(at) /\ UNCHANGED evs
+  /\ pend' = Tail(pend)
+  /\ UNCHANGED <<fw, chan, rpos, bstart, ncuts, nhost, alive, hist>>
+
 (* a call packet whose channels cannot be hashed *)
 HChan ==
   /\ IsPkt("hchan")
@@ -293,13 +312,14 @@ Probe ==
   /\ pend' = Tail(pend)
   /\ UNCHANGED <<fw, chan, rpos, bstart, evs, ncuts, nhost, alive, hist>>
 
-Next == \/ \E size \in Sizes, pay \in Pays, fwk \in FwKinds : Send(size, pay, fwk)
+Next == \/ \E size \in Sizes, pay \in Pays, fwk \in FwKinds, nr \in NoResult : Send(size, pay, fwk, nr)
         \/ \E d \in {0, 1}, k \in 1..BufW : Read(d, k)
         \/ \E id \in 1..MaxSends, v \in Values, err \in BOOLEAN : Reply(id, v, err)
         \/ \E cls \in HostileClasses : Hostile(cls, "")
         \/ \E key \in MetaKeys : Hostile("meta", key)
+        \/ \E key \in MetaKeys : Hostile("vmeta", key)
         \/ Quiet
-        \/ Execute \/ Reject \/ Deliver \/ HDispatch \/ HChan \/ Probe
+        \/ Execute \/ Reject \/ Deliver \/ HDispatch \/ HValue \/ HChan \/ Probe
 
 Spec == Init /\ [][Next]_vars
 
@@ -316,6 +336,8 @@ Firewalled == \A i \in 1..Len(evs) : (~evs[i].sok \/ ~evs[i].rok) => evs[i].ex =
 LoopAlive  == alive
 QuietDone  == LastKind = "Q" =>
                 \A i \in 1..Len(evs) : (evs[i].sok /\ evs[i].rok) => (evs[i].ex = 1 /\ (~P.h1 => ~evs[i].waiting))
+(* a send nobody waits for never has a waiting handler *)
+NoWaiter   == \A i \in 1..Len(evs) : P.ev[i].nr => ~evs[i].waiting
 
 View == <<fw, chan, rpos, bstart, evs, pend, ncuts, nhost, alive, P, bad, Len(hist), LastKind>>
 =============================================================================
